@@ -65,6 +65,16 @@ def enum_units(tier, seed):
                                                    {"k": "macro", "n": "m_a", "ps": ["p_ax"], "b": [{"k": "for", "v": "i_1", "lo": L(0), "hi": ["id", "p_ax"], "b": [db(["id", "i_1"], ["id", "p_ax"])]},
                                                                                                    {"k": "if", "c": ["id", "p_ax"], "t": [db(L(0x55))], "e": None}]},
                                                    {"k": "for", "v": "i_0", "lo": L(0), "hi": ["id", "k_n"], "b": [{"k": "call", "n": "m_a", "args": [["id", "i_0"]]}]}]})
+    # conditions whose low 8 / 16 / 24 / 32 bits are zero; an empty first block with an else block
+    for v in (0x100, 0x10000, 0x7E0000, 0x1000000, 1 << 32):
+        for c in (["lit", v, "x"], ["neg", ["lit", v, "x"]], ["bin", "<<", L(1), L(v.bit_length() - 1)]):
+            cases.append({"rom": "low", "files": {}, "ir": [org, {"k": "if", "c": c, "t": [db(L(1))], "e": [db(L(2))]}, db(L(0xEE))]})
+    for c in (L(1), L(0)):
+        cases.append({"rom": "low", "files": {}, "ir": [org, {"k": "if", "c": c, "t": [], "e": [db(L(2))]}, {"k": "if", "c": c, "t": [db(L(3))], "e": []}, db(L(0xEE))]})
+    # a := constant exported by a named scope is known while the program is expanded, like any other := constant
+    sc = {"k": "scope", "n": "sc_k", "b": [{"k": "const", "n": "k_in", "e": L(2), "eager": True}, db(["id", "k_in"])]}
+    cases.append({"rom": "low", "files": {}, "ir": [org, sc, {"k": "if", "c": ["id", "sc_k.k_in"], "t": [db(L(1))], "e": [db(L(0))]},
+                                                   {"k": "for", "v": "i_0", "lo": L(0), "hi": ["id", "sc_k.k_in"], "b": [db(["id", "i_0"])]}, db(["id", "sc_k.k_in"])]})
     return {"units": [{"cases": cases}], "exhaustive": False}
 
 
